@@ -24,7 +24,7 @@ open MakoModel.Wire MakoModel.Lexer MakoModel.Basic MakoModel.ErrPos
 
 def decLabel : String → Option Label
   | "expr" => some .expr
-  | "filter" => some .filter
+  | "filter" => some (.filter 0)
   | "block" => some .block
   | "ctl" => some .ctl
   | "sigdef" => some .sigDef
@@ -54,12 +54,23 @@ def nodeTok (s : Str) (i : Nat) : Option Token :=
 def ctorOf (t : Token) (lb : Label) (raw : Str) : Option Str :=
   match lb, t.payload with
   | .expr, .expr text _ => some text
-  | .filter, .expr _ esc => some esc
+  | .filter _, .expr _ esc => some esc
   | .block, .code r _ => some r
   | .ctl, .ctl _ false text => some text
-  | .expr, _ | .filter, _ | .block, _ | .ctl, _ => none
+  | .expr, _ | .filter _, _ | .block, _ | .ctl, _ => none
   | lb, .tagOpen _ _ _ => some (ctorString lb raw)
   | _, _ => none
+
+/-- the label of a filter list with the `escapes_lineno_offset` the lexer computes for the expression token `t`:
+    the newlines between `${` and the first filter (the stripped filter text ends where the whitespace before `}`
+    begins; an empty filter list counts everything up to `}`) -/
+def filterLabel (s : Str) (t : Token) : Label :=
+  match t.payload with
+  | .expr _ esc =>
+    let inner := slice s t.start (t.stop - 1)                     -- `${` … up to the closing `}`
+    let q := if esc.isEmpty then inner.length else (rstripPy inner).length - esc.length
+    .filter (countNL (inner.take q))
+  | _ => .filter 0
 
 def handle : Handler
   | ["call", lb, c] => do
@@ -77,6 +88,7 @@ def handle : Handler
     pure (match nodeTok s i with
       | none => "none"
       | some t =>
+        let lb := match lb with | .filter _ => filterLabel s t | l => l
         match ctorOf t lb raw with
         | none => "none"
         | some c =>
